@@ -7,8 +7,8 @@ from props.base import run_req, cmp_run
 RULE = ("fault matrix: 14 fault kinds (operand type mismatch in 4 operator families, undeclared read, undeclared assignment, "
         "non-boolean condition, wrong built-in argument type and count, list index out of range / negative / on an empty "
         "index, missing record key on read and on a write path, indexed write out of range, push/pop at an invalid "
-        "position, calling a non-function, printing nil, _এরর(m)) x 9 statement positions (print, declaration, assignment, "
-        "expression statement, if condition, else-if condition, return operand, argument, index write) x call depth 0..3 "
+        "position, calling a non-function, printing nil, _এরর(m)) x 10 statement positions (print, declaration, assignment, "
+        "expression statement, if condition, else-if condition, argument, index write, operand of ==, directly in a return operand) x call depth 0..3 "
         "x main file / imported module, after a random number of preceding prints. Oracle computed by the generator: "
         "output = exactly the preceding prints, status = error, line = the faulting statement's line, file = the file it "
         "is written in, message = m for _এরর. Also compared with the Lean model (class, line, file, message). The command "
@@ -58,6 +58,8 @@ def fault_stmt(pos, fe, ok_expr):
         return [("print", G.call("একই", fe))]
     if pos == 7:
         return [("assign", "তালিকা", [G.num(0)], fe)]
+    if pos == 9:
+        return [("return", fe)]              # directly in a return operand (only used at call depth >= 1)
     return [("print", G.bin_("==", fe, ok_expr))]
 
 
@@ -148,10 +150,14 @@ def cases(rng, tier, stats):
     n = 0
     kinds = {}
     for fi, (fname, fmk, cls) in enumerate(FAULTS):
-        for pos in range(9):
+        for pos in range(10):
             for depth in (0, 1, 2, 3):
                 for in_module in (False, True):
-                    if tier != "thorough" and (fi * 7 + pos * 3 + depth + in_module) % 4 != 0:
+                    if pos == 9 and depth == 0:
+                        continue
+                    if tier != "thorough" and pos != 9 and (fi * 7 + pos * 3 + depth + in_module) % 4 != 0:
+                        continue
+                    if tier != "thorough" and pos == 9 and (fi + depth + in_module) % 2 != 0:
                         continue
                     if cls == "runtime" and pos in (4, 5) and fname not in ("undeclared", "index-out-of-range", "missing-key", "error-builtin", "to-num"):
                         pass
